@@ -584,9 +584,30 @@ package consensus
 //@   trusted
 //@   modifies *
 //@   opt abs-args
+// (sbp_n / sbp_id: number of SetByPartSetID calls and the id last adopted)
+//@ smt all (declare-ghost sbp_n Int)
+//@ smt all (declare-ghost sbp_id Int)
+//@ func (bps *blockPartSet) SetByPartSetID(psid)
+//@   trusted
+//@   modifies *
+//@   opt ghost:sbp_n ghost(sbp_n) + 1
+//@   opt ghost:sbp_id psid
+//@ func (bps *blockPartSet) Zerofy()
+//@   trusted
+//@   modifies *
+// entering the commit step always adopts the block id the precommits decided - also when the node
+// already holds another complete block (body checked behind the trusted contract)
 //@ func (cs *consensus) enterCommit(precommits, partSetID, round)
 //@   trusted
 //@   modifies *
+//@   opt verify-body
+//@   arith int
+//@   nosafety
+//@   noframe
+//@   opt no-callee-pre
+//@   opt inline-none
+//@   ensures [body:adopts_decided_block] ghost(sbp_n) == old(ghost(sbp_n)) + 1 && ghost(sbp_id) == partSetID
+//@   loop 0: invariant ghost(sbp_n) == old(ghost(sbp_n)) + 1 && ghost(sbp_id) == partSetID
 
 //@ spec lockedZero(cs) = cs.lockedBlockParts.PartSet == nil && cs.lockedBlockParts.block == nil
 
@@ -648,3 +669,15 @@ package consensus
 //@   opt inline-none
 //@   requires cs != nil && msg != nil
 //@   callpre enterCommit: partSetID != nil && partSetID == ghost(ott_id) && ghost(ott_of) == caller_precommits && precommits == caller_precommits && round == msg.Round
+
+// the lock is given up on a prevote message only for a +2/3 answer of a round later than the lock
+//@ func (cs *consensus) handlePrevoteMessage(msg, prevotes)
+//@   arith int
+//@   nosafety
+//@   modifies *
+//@   opt no-callee-pre
+//@   opt inline-none
+//@   inline IsZero, ID
+//@   opt protect msg.Round
+//@   requires cs != nil && msg != nil
+//@   callpre Zerofy: ghost(ott_ok) && ghost(ott_of) == caller_prevotes && old(cs.lockedRound) < msg.Round
